@@ -1558,9 +1558,15 @@ impl Translator {
         }
     }
 
-    fn wrapper_footer(&self, st: &mut TranslatorState, nargs: usize, for_function_body: bool) {
+    fn wrapper_footer(
+        &self,
+        st: &mut TranslatorState,
+        nargs: usize,
+        returns_void: bool,
+        for_function_body: bool,
+    ) {
         if for_function_body {
-            if nargs == 0 {
+            if returns_void {
                 self.emit(st, Instr::ReturnVoid);
             } else {
                 self.emit(st, Instr::Return(nargs as u32));
@@ -1860,7 +1866,7 @@ impl Translator {
                 self.emit(st, Instr::Panic);
             }
         }
-        self.wrapper_footer(st, nargs, for_function_body);
+        self.wrapper_footer(st, nargs, nargs == 0, for_function_body);
     }
 
     fn emit_foreign(
@@ -1894,7 +1900,13 @@ impl Translator {
         let func_id = offset + self.statics.dylib_to_funcs[&lib_id].get_id(symbol) as usize;
         self.emit(st, Instr::CallForeign(func_id as u32));
 
-        self.wrapper_footer(st, nargs, for_function_body);
+        self.wrapper_footer(st, nargs, self.returns_void(func_decl), for_function_body);
+    }
+
+    // a wrapper of a declaration without a body returns a value unless the declared return type is void
+    // (not: unless it takes no arguments)
+    fn returns_void(&self, func_decl: &Rc<FuncDecl>) -> bool {
+        func_decl.ret_type.to_solved_type(&self.statics) == Some(SolvedType::Void)
     }
 
     fn emit_host(
@@ -1910,7 +1922,7 @@ impl Translator {
         let idx = self.statics.host_funcs.get_id(func_decl) as u16;
         self.emit(st, Instr::HostFunc(idx));
 
-        self.wrapper_footer(st, nargs, for_function_body);
+        self.wrapper_footer(st, nargs, self.returns_void(func_decl), for_function_body);
     }
 
     // emit items for checking if a pattern matches the TOS, replacing it with a boolean
